@@ -213,6 +213,13 @@ func main() {
 	if ep := prog.ImportedPackage("errors"); ep != nil {
 		errStrT = types.NewPointer(ep.Type("errorString").Type())
 	}
+	if op := prog.ImportedPackage("os"); op != nil {
+		osFileT = op.Type("File").Type()
+	}
+	if sp := prog.ImportedPackage("syscall"); sp != nil {
+		errnoT = sp.Type("Errno").Type()
+	}
+	regKernel()
 	if tp := prog.ImportedPackage("time"); tp != nil {
 		timeT = tp.Type("Time").Type()
 	}
